@@ -305,18 +305,50 @@ def _r1(ctx, gr):
 
 
 def _callbacks(cls_node):
-    """name -> callback; a `def f(self, x): return <expr>` is presented as the lambda it is equivalent to"""
+    """name -> callback; a `def f(self, x): return <expr>` is presented as the lambda it is equivalent to.  Every target of a
+    chained assignment (`a = b = f`) is bound; a name bound to another function of the same class body (`atom = _concat`) is that
+    function."""
     out = {}
+
+    def present(s):
+        body = [x for x in s.body if not (isinstance(x, ast.Expr) and isinstance(x.value, ast.Constant))]
+        if len(body) == 1 and isinstance(body[0], ast.Return) and body[0].value is not None and not s.decorator_list:
+            return ast.copy_location(ast.Lambda(args=s.args, body=body[0].value), s)
+        return s
     for s in cls_node.body:
-        if isinstance(s, ast.Assign) and isinstance(s.targets[0], ast.Name):
-            out[s.targets[0].id] = s.value
+        if isinstance(s, ast.Assign):
+            val = s.value
+            if isinstance(val, ast.Name) and val.id in out:
+                val = out[val.id]
+            for t in s.targets:
+                if isinstance(t, ast.Name):
+                    out[t.id] = val
         elif isinstance(s, ast.FunctionDef):
-            body = [x for x in s.body if not (isinstance(x, ast.Expr) and isinstance(x.value, ast.Constant))]
-            if len(body) == 1 and isinstance(body[0], ast.Return) and body[0].value is not None and not s.decorator_list:
-                lam = ast.Lambda(args=s.args, body=body[0].value)
-                out[s.name] = ast.copy_location(lam, s)
-            else:
-                out[s.name] = s
+            out[s.name] = present(s)
+    return out
+
+
+def _class_consts(ci, order):
+    """{("attr", self, name): IR} of the class-level constants the transformer class reads through self (classes in MRO `order`,
+    the most derived first): strings, numbers, displays of such and `str.maketrans("ab", "xy")` tables -- what a callback that
+    says `self._prefix` / `self._table` computes with.  Names bound to functions are callbacks, not constants."""
+    from ..valueflow import simp
+    from ..ratemodel import _ev_literal
+    SELF = ("param", "self")
+    out = {}
+    for c in reversed(order):
+        for st in ci.nested[c].body:
+            if not (isinstance(st, ast.Assign) and all(isinstance(t, ast.Name) for t in st.targets)):
+                continue
+            v = st.value
+            pure = all(isinstance(n, (ast.Constant, ast.Tuple, ast.List, ast.Dict, ast.Load, ast.Call, ast.Attribute, ast.Name)) for n in ast.walk(v)) \
+                and all(ast.unparse(n.func) == "str.maketrans" and not n.keywords for n in ast.walk(v) if isinstance(n, ast.Call)) \
+                and all(n.id == "str" for n in ast.walk(v) if isinstance(n, ast.Name))
+            for t in st.targets:
+                if pure:
+                    out[("attr", SELF, t.id)] = simp(_ev_literal(v))
+                else:
+                    out.pop(("attr", SELF, t.id), None)
     return out
 
 
@@ -353,12 +385,19 @@ def _callback_returns(ci, cls_name, name):
 
     def resolver(n):
         for c in order:
-            for st in ci.nested[c].body:
-                if isinstance(st, ast.FunctionDef) and st.name == n and st is not fn:
-                    return st
+            g = _callbacks(ci.nested[c]).get(n)
+            if g is None:
+                continue
+            if isinstance(g, ast.Lambda):
+                f2 = ast.FunctionDef(name=n, args=g.args, body=[ast.Return(value=g.body)], decorator_list=[], returns=None, type_comment=None)
+                f2.type_params = []
+                g = ast.fix_missing_locations(ast.copy_location(f2, g))
+            return g if isinstance(g, ast.FunctionDef) and g is not fn else None
         return None
+    from ..valueflow import subst
+    cc = _class_consts(ci, order)
     fl = Flow(fn, CF, resolver=resolver)
-    return cb, arg, [simp(f.value) for f in fl.facts if f.kind == "return" and f.value is not None]
+    return cb, arg, [simp(subst(simp(f.value), cc)) for f in fl.facts if f.kind == "return" and f.value is not None]
 
 
 def _decompose(v, arg):
@@ -375,9 +414,22 @@ def _decompose(v, arg):
             return None
         v = parts[0][1]
     reps = []
-    while v[0] == "meth" and v[2] == "replace" and len(v[3]) == 2 and not v[4] and all(a[0] == "const" and isinstance(a[1], str) for a in v[3]):
-        reps.insert(0, (v[3][0][1], v[3][1][1]))
-        v = v[1]
+    while True:
+        if v[0] == "meth" and v[2] == "replace" and len(v[3]) == 2 and not v[4] and all(a[0] == "const" and isinstance(a[1], str) for a in v[3]):
+            reps.insert(0, (v[3][0][1], v[3][1][1]))
+            v = v[1]
+            continue
+        # x.translate(str.maketrans("abc", "xyz")): every a -> x, b -> y, c -> z at once.  That is the chain of single-character
+        # replacements in any order provided no replacement produces a character a later one consumes ("abc" and "xyz" disjoint)
+        if v[0] == "meth" and v[2] == "translate" and len(v[3]) == 1 and not v[4]:
+            t = v[3][0]
+            if t[0] == "meth" and t[1] == ("global", "str") and t[2] == "maketrans" and len(t[3]) == 2 and not t[4] \
+                    and all(a[0] == "const" and isinstance(a[1], str) for a in t[3]) and len(t[3][0][1]) == len(t[3][1][1]) \
+                    and len(set(t[3][0][1])) == len(t[3][0][1]) and not (set(t[3][0][1]) & set(t[3][1][1])):
+                reps = list(zip(t[3][0][1], t[3][1][1])) + reps
+                v = v[1]
+                continue
+        break
     if v[0] == "join" and v[1][0] == "const" and isinstance(v[1][1], str) and v[2] == ("param", arg):
         return pre, v[1][1], reps, post
     return None
@@ -389,7 +441,7 @@ def _selects_children(v, arg):
     for x in walk(v):
         if isinstance(x, tuple) and len(x) >= 2 and x[0] in ("item", "sub", "slice") and x[1] == ("param", arg):
             return True
-        if isinstance(x, tuple) and x[0] == "call" and x[1] in (("global", "reversed"), ("global", "sorted")) and x[2] and x[2][0] == ("param", arg):
+        if isinstance(x, tuple) and len(x) == 4 and x[0] == "call" and x[1] in (("global", "reversed"), ("global", "sorted")) and x[2] and x[2][0] == ("param", arg):
             return True
     return False
 
@@ -444,7 +496,7 @@ def _children_used(cb):
         arg = cb.args.args[1].arg if len(cb.args.args) > 1 else None
         nodes_ = cb.body
         st = [x for x in cb.body if not (isinstance(x, ast.Expr) and isinstance(x.value, ast.Constant))]
-        if len(st) == 2 and isinstance(st[0], ast.Assign) and isinstance(st[0].targets[0], ast.Tuple) and len(st[0].targets[0].elts) == 1 \
+        if len(st) == 2 and isinstance(st[0], ast.Assign) and isinstance(st[0].targets[0], (ast.Tuple, ast.List)) and len(st[0].targets[0].elts) == 1 \
                 and isinstance(st[0].value, ast.Name) and st[0].value.id == arg and isinstance(st[1], ast.Return):
             return {0}, "single"
         if len(st) == 1 and isinstance(st[0], ast.Return) and arg and re.fullmatch(r"""['"]{2}\.join\(%s\)""" % arg, ast.unparse(st[0].value).replace(" ", "")):
@@ -555,16 +607,83 @@ def _prepass(ctx, pkg, fn):
     conv, x = rd[1], rd[3][0]
     subs, repl = [], []
     is_re = lambda o: o in (("global", "re"),)
+
+    def module_value(v):
+        """a module-level name bound once (`_pattern = re.compile(r"..")`) is the value it is bound to"""
+        if v[0] == "global":
+            defs = [st for st in mod.body if isinstance(st, ast.Assign) and any(isinstance(t, ast.Name) and t.id == v[1] for t in st.targets)]
+            stores = [n for n in ast.walk(mod) if isinstance(n, ast.Name) and n.id == v[1] and isinstance(n.ctx, (ast.Store, ast.Del))]
+            if len(defs) == 1 and len(stores) == 1:
+                from ..ratemodel import _ev_literal
+                return simp(_ev_literal(defs[0].value))
+        return v
+
+    def compiled(o):
+        """pattern text of `re.compile("..")` (written in place or bound to a module-level name); None otherwise"""
+        o = module_value(o)
+        if o[0] == "meth" and is_re(o[1]) and o[2] == "compile" and len(o[3]) >= 1 and not o[4] and o[3][0][0] == "const" and isinstance(o[3][0][1], str):
+            return o[3][0][1] if len(o[3]) == 1 else None
+        return None
+    const = lambda a: a[1] if a[0] == "const" and isinstance(a[1], str) else None
+
+    def replacement(a):
+        """the replacement argument of a substitution: a literal template, or a FUNCTION of the match -- then the template it is
+        equal to when it only re-assembles groups and literal text, else ("computed", what it does, re-prints a number?)"""
+        if const(a) is not None or a[0] not in ("global", "lambda", "attr"):
+            return const(a)
+        callee = None
+        if a[0] == "global":
+            callee = pkg.functions.get((KR, a[1]))
+        elif a[0] == "attr" and a[1] in (SELF, ("param", "cls")):
+            callee = cls_helper(a[2]) or pkg.resolve("KROMEReaction", a[2])[1]
+        if a[0] == "lambda":
+            m_, vals = (a[1][0] if len(a[1]) == 1 else None), [a[2]]
+        elif callee is not None:
+            ps = [p_.arg for p_ in callee.args.args]
+            if a[0] == "attr" and not any(ast.unparse(d) == "staticmethod" for d in callee.decorator_list):
+                ps = ps[1:]
+            m_ = ("param", ps[0]) if len(ps) == 1 else None
+            vals = [simp(f.value) for f in Flow(callee, KR).facts if f.kind == "return" and f.value is not None]
+        else:
+            return None
+        if m_ is None or len(vals) != 1:
+            return ("computed", show(a)[:60], False)
+
+        def template(v):
+            if v[0] == "const" and isinstance(v[1], str):
+                return v[1] if "\\" not in v[1] else None
+            if v[0] == "fstr":
+                ps_ = [template(p_) for p_ in v[1]]
+                return None if any(p_ is None for p_ in ps_) else "".join(ps_)
+            if v[0] == "fmt":
+                return template(v[1]) if v[2] is None and v[3] == -1 else None
+            g = None
+            if v[0] == "meth" and v[1] == m_ and v[2] == "group" and len(v[3]) == 1 and not v[4] and v[3][0][0] == "const":
+                g = v[3][0][1]
+            elif v[0] == "sub" and v[1] == m_ and v[2][0] == "const":
+                g = v[2][1]
+            elif v[0] == "item" and v[1] == ("meth", m_, "groups", (), ()) and isinstance(v[2], int) and v[2] >= 0:
+                g = v[2] + 1
+            return f"\\{g}" if type(g) is int and 0 < g < 10 else None
+        t = template(vals[0])
+        if t is not None:
+            return t
+        from ..valueflow import walk
+        reprints = any(isinstance(y, tuple) and ((len(y) == 4 and y[0] == "call" and y[1] in (("global", "float"), ("global", "int"), ("global", "round"), ("global", "repr"), ("global", "Decimal")))
+                                                 or (len(y) == 4 and y[0] == "fmt" and y[2] is not None)) for y in walk(vals[0]))
+        return ("computed", show(vals[0])[:80], reprints)
     for _ in range(40):
         if x == ("attr", SELF, "rate_string"):
             return conv, list(reversed(subs)), list(reversed(repl)), None
-        const = lambda a: a[1] if a[0] == "const" and isinstance(a[1], str) else None
         if x[0] == "meth" and x[2] == "sub" and is_re(x[1]) and len(x[3]) == 3 and not x[4]:
-            pat, rep = const(x[3][0]), const(x[3][1])
+            pat, rep = const(x[3][0]), replacement(x[3][1])
+            if pat is None:
+                pat = compiled(x[3][0])
             subs.append((pat, rep, line_of(pat, reads[0].line)))
             x = x[3][2]
-        elif x[0] == "meth" and x[2] == "sub" and x[1][0] == "meth" and is_re(x[1][1]) and x[1][2] == "compile" and len(x[1][3]) == 1 and not x[1][4] and len(x[3]) == 2 and not x[4]:
-            pat, rep = const(x[1][3][0]), const(x[3][0])
+        elif x[0] == "meth" and x[2] == "sub" and is_re(x[1]) is False and len(x[3]) == 2 and not x[4] and \
+                (compiled(x[1]) is not None or (module_value(x[1])[0] == "meth" and is_re(module_value(x[1])[1]) and module_value(x[1])[2] == "compile")):
+            pat, rep = compiled(x[1]), replacement(x[3][0])
             subs.append((pat, rep, line_of(pat, reads[0].line)))
             x = x[3][1]
         elif x[0] == "meth" and x[2] == "replace" and len(x[3]) == 2 and not x[4] and const(x[3][0]) is not None and const(x[3][1]) is not None:
@@ -577,7 +696,9 @@ def _prepass(ctx, pkg, fn):
 
 def _r3(ctx, pkg):
     import re._parser as sp
-    fn = pkg.method("KROMEReaction", "rateexpr")
+    # the method with the private stages it may have been split into put back (statement helpers as statements: the
+    # <converter>.read(text) call of a helper is a call of rateexpr)
+    fn = pkg.expanded("KROMEReaction", "rateexpr")
     ctx.saw(KR, "KROMEReaction.rateexpr")
     conv, subs, repl, problem = _prepass(ctx, pkg, fn)
     if problem:
@@ -586,6 +707,17 @@ def _r3(ctx, pkg):
     ctx.floor("R3", "regex rewritings", len(subs), 4, (KR, fn.lineno))
     seen_d = 0
     for pat, rep, line in subs:
+        if isinstance(rep, tuple) and rep[0] == "computed":
+            # the replacement is a function of the match that does more than re-assemble its groups
+            if rep[2]:
+                ctx.bad("R3", f"computed rewriting {pat!r}", (KR, line),
+                        f"the text matched by {pat!r} is not rewritten by a reviewed template but RE-GENERATED by a function ({rep[1]}): a number literal that goes through float()/"
+                        "a format specification comes out with another spelling -- integral-valued reals lose their decimal point (1.d0 -> 1, so 1.d0/2.d0 becomes the C integer "
+                        "division 1/2 = 0), long mantissas are rounded", expected=r"(\d\.?)d(\-?\d) -> \1e\2 (the literal's own digits, only the exponent letter changed)",
+                        found=f"{pat} -> {rep[1]}")
+            else:
+                ctx.unrec("R3", f"computed rewriting {pat!r}", (KR, line), f"the replacement of {pat!r} is computed by a function that is not understood: {rep[1]}")
+            continue
         if pat is None:
             ctx.unrec("R3", f"re.sub@{line}", (KR, line), "pattern is not a literal")
             continue
@@ -658,6 +790,12 @@ MUTANTS = [
     {"name": "d-exponent-drops-sign", "file": KR, "old": 'r"(\\d\\.?)d(\\-?\\d)", r"\\1e\\2"', "new": 'r"(\\d\\.?)d\\-?(\\d)", r"\\1e\\2"', "rules": ["R3"]},
     {"name": "expression-join-without-space", "file": CF, "old": '        expression = lambda self, e: " ".join(e)', "new": '        expression = lambda self, e: "".join(e[::-1])', "rules": ["R2"]},
     {"name": "listvar-keeps-parentheses", "file": CF, "old": '            .replace("(", "[")\n            .replace(")", "]")\n            .replace("n", "y")', "new": '            .replace("n", "y")', "rules": ["R2"]},
+    {"name": "listvar-translate-table-wrong-target", "file": CF, "old": '        listvar = (\n            lambda self, l: "".join(l)\n            .replace("(", "[")\n            .replace(")", "]")\n            .replace("n", "y")\n        )\n', "new": '        _lv = str.maketrans("()n", "[]x")\n\n        def listvar(self, l):\n            return "".join(l).translate(self._lv)\n', "rules": ["R2"]},
+    {"name": "d-exponent-reprinted-through-float", "edits": [
+        {"file": KR, "old": '        rate = re.sub(r"(\\d\\.?)d(\\-?\\d)", r"\\1e\\2", self.rate_string)\n', "new": '        rate = re.sub(r"(\\d+\\.?\\d*)d(\\-?\\d+)", lambda m: "%g" % float(m.group(1) + "e" + m.group(2)), self.rate_string)\n'}], "rules": ["R3"]},
+    {"name": "rewrite-table-with-unreviewed-row", "edits": [
+        {"file": KR, "old": '        rate = re.sub(r"(\\d\\.?)d(\\-?\\d)", r"\\1e\\2", self.rate_string)\n        rate = re.sub(r"(idx_.?)p", r"\\1II", rate)\n        rate = re.sub(r"(idx_.?)m", r"\\1M", rate)\n        rate = re.sub(r"(idx_.?)\\)", r"\\1I)", rate)\n', "new": '        rate = self.rate_string\n        for pattern, replacement in self._rewrites:\n            rate = re.sub(pattern, replacement, rate)\n'},
+        {"file": KR, "old": '    def rateexpr(self, grain: Grain = None) -> str:', "new": '    _rewrites = (\n        (r"(\\d\\.?)d(\\-?\\d)", r"\\1e\\2"),\n        (r"\\.0+e", r"e"),\n        (r"(idx_.?)p", r"\\1II"),\n        (r"(idx_.?)m", r"\\1M"),\n        (r"(idx_.?)\\)", r"\\1I)"),\n    )\n\n    def rateexpr(self, grain: Grain = None) -> str:'}], "rules": ["R3"]},
 ]
 BENIGN = [
     {"name": "grammar-assembled-from-fragments", "file": CF, "old": '    fgrammar = r"""\n        expression: multiply ((PLUS | MINUS) multiply)*\n',
@@ -671,4 +809,12 @@ BENIGN = [
     {"name": "c-listvar-stepwise-other-order", "file": CF, "old": '            .replace("(", "[")\n            .replace(")", "]")\n            .replace("n", "y")', "new": '            .replace("n", "y")\n            .replace(")", "]")\n            .replace("(", "[")'},
     {"name": "atom-as-def", "file": CF, "old": '        atom = lambda self, a: "".join(a)', "new": '        def atom(self, parts):\n            text = "".join(parts)\n            return text'},
     {"name": "callback-arg-renamed", "file": CF, "old": '        atom = lambda self, a: "".join(a)', "new": '        atom = lambda self, parts: "".join(parts)'},
+    {"name": "listvar-translate-table", "file": CF, "old": '        listvar = (\n            lambda self, l: "".join(l)\n            .replace("(", "[")\n            .replace(")", "]")\n            .replace("n", "y")\n        )\n', "new": '        _lv = str.maketrans("()n", "[]y")\n\n        def listvar(self, l):\n            return "".join(l).translate(self._lv)\n'},
+    {"name": "join-callbacks-share-one-method", "file": CF, "old": '        multiply = lambda self, m: "".join(m)\n        power = lambda self, p: "".join(p)\n        func = lambda self, f: "".join(f)\n', "new": '        def _concat(self, children):\n            return "".join(children)\n\n        multiply = power = func = _concat\n'},
+    {"name": "index-prefix-class-constant", "file": CF, "old": '        index = lambda self, i: f"IDX{\'\'.join(i)}"\n', "new": '        _index_prefix = "IDX"\n\n        def index(self, i):\n            return self._index_prefix + "".join(i)\n'},
+    {"name": "rewrites-as-class-table-and-staged-helpers", "edits": [
+        {"file": KR, "old": '        rate = re.sub(r"(\\d\\.?)d(\\-?\\d)", r"\\1e\\2", self.rate_string)\n        rate = re.sub(r"(idx_.?)p", r"\\1II", rate)\n        rate = re.sub(r"(idx_.?)m", r"\\1M", rate)\n        rate = re.sub(r"(idx_.?)\\)", r"\\1I)", rate)\n' + '        rate = rate.replace("Hnuclei", "nH")\n        self._kromerateconverter.read(rate)\n        rate = f"{self._kromerateconverter:c}"\n        return rate\n',
+         "new": '        return self._to_c(self._prepared(self.rate_string))\n\n    def _prepared(self, text):\n        for pattern, replacement in self._rewrites:\n            text = pattern.sub(replacement, text)\n        return text.replace("Hnuclei", "nH")\n\n    def _to_c(self, text):\n        self._kromerateconverter.read(text)\n        return format(self._kromerateconverter, "c")\n'},
+        {"file": KR, "old": '    def rateexpr(self, grain: Grain = None) -> str:', "new": '    _rewrites = (\n        (re.compile(r"(\\d\\.?)d(\\-?\\d)"), r"\\1e\\2"),\n        (re.compile(r"(idx_.?)p"), r"\\1II"),\n        (re.compile(r"(idx_.?)m"), r"\\1M"),\n        (re.compile(r"(idx_.?)\\)"), r"\\1I)"),\n    )\n\n    def rateexpr(self, grain: Grain = None) -> str:'}]},
+    {"name": "d-exponent-replacement-as-function-of-the-groups", "file": KR, "old": '        rate = re.sub(r"(\\d\\.?)d(\\-?\\d)", r"\\1e\\2", self.rate_string)\n', "new": '        rate = re.sub(r"(\\d\\.?)d(\\-?\\d)", lambda m: m.group(1) + "e" + m.group(2), self.rate_string)\n'},
 ]
